@@ -221,6 +221,9 @@ def run(rep):
         # goderive generates must be exactly the closure the model predicts
         from vlib import requests as requests_tie
         requests_tie.run(rep)
+        # recorded known findings of this property that no generator above produces (vlib/data/known)
+        from vlib import probes
+        probes.run(rep, "C01")
     finally:
         shutil.rmtree(root, ignore_errors=True)
 
